@@ -1,6 +1,7 @@
 import Dcg.Model.Determinism
 import Dcg.Proofs.Determinism
 import Dcg.Gen.SetSites
+import Dcg.Gen.ModuleState
 import Dcg.Proofs.Write
 import Dcg.Gen.GenerateSteps
 /-
@@ -14,7 +15,7 @@ ordering, the Jinja/black/isort internals and process history are run-time behav
 theorem here exhibits: they are covered by the differential runs of vlib/props/c08.py only.
 -/
 namespace Dcg.Props.C08
-open Dcg.Model.Determinism Dcg.Proofs.Determinism Dcg.Gen.SetSites
+open Dcg.Model.Determinism Dcg.Proofs.Determinism Dcg.Gen.SetSites Dcg.Gen.ModuleState
 
 /-! ### Tables (re-checked by the kernel against the current source) -/
 
@@ -94,6 +95,45 @@ list as a write to some OTHER object; the set of shared classes is the reviewed 
 theorem memoised_values_never_mutated :
     memoValueWrites.all (fun w => (reviewedMemoWrites.lookup (w.1, w.2.1, w.2.2.1)).isSome) = true ∧
     memoClasses.map (·.1) = knownSharedClasses := by decide +kernel
+
+/-! ### Module-level mutable objects and what memoised functions read besides their arguments -/
+
+def escapeOK (e : Escape) : Bool :=
+  if e.mutated then reviewedMutatedAliases.contains (e.file, e.func, e.kind, e.target, e.const)
+  else e.kind == k! "attr" || e.kind == k! "local" || e.kind == k! "classattr" ||
+       (reviewedModuleEscapes.lookup (e.file, e.func, e.kind, e.target, e.const)).isSome
+
+/-- A dict / list / set bound to a module-level name is ONE object per process. Every place in the source where such an object
+itself (not a copy: `{*CONST}`, `set(CONST)`, `CONST | other`, `CONST.copy()` are copies) gets another name or is handed on is in
+the regenerated table Gen/ModuleState.moduleMutableEscapes; the obligation: (1) an assignment `self.x = CONST`, `x = CONST`,
+`x = CONST if c else {…}`, `x = y or CONST` is only acceptable when nothing in the package mutates an attribute named `x` (a local
+`x` in that function) in place — `.add/.update/.append/.extend/.pop/.remove/.clear/.setdefault/…`, `x[k] = v`, `del x[k]`, `x |= …` —
+the reviewed exceptions are `reviewedMutatedAliases` (none); (2) every other escape (default value, argument, return) is reviewed
+with the reason why the receiver only reads; (3) no statement mutates a module-level mutable under its own name (reviewed
+exceptions: none); (4) the objects the review talks about are still in the table. An aliasing assignment of `DEFAULT_FIELD_KEYS`
+to `self.field_keys` together with `self.field_keys.update(…)` — one run's keywords kept by every later parser — breaks (1). -/
+theorem module_mutables_not_written_through_alias :
+    moduleMutableEscapes.all escapeOK = true ∧
+    moduleMutableWrites.all (fun w => reviewedModuleWrites.contains w) = true ∧
+    expectedModuleMutables.all (fun m => moduleMutables.contains m) = true := by
+  decide +kernel
+
+def cacheReadOK (c : CacheRead) : Bool :=
+  (reviewedOutsideCaches.lookup (c.file, c.func)).isSome ||
+  (reviewedPureCaches.contains (c.file, c.func) && !c.pathParam && c.outside.isEmpty)
+
+/-- The premise of `cache_transparent` that the memoised `f` IS a function of its arguments: every process-wide memoised function
+(`lru_cache` / `cache`) is on the reviewed list of functions of their arguments only — and then the translator finds no parameter
+annotated as a path / file and no call that reads the file system, the environment or the clock in its body — or on the reviewed
+list of caches whose result depends on state outside the arguments (`get_template`: a template FILE), each with its tag. The two
+tables list the same functions as `cacheSites`. A new memoised function — e.g. a cached `read_text_file(path, encoding)`, which
+keeps returning what the file held at the first call — is on neither list and breaks this. -/
+theorem memoised_functions_of_their_arguments_only :
+    cacheReads.all cacheReadOK = true ∧
+    (cacheSites.filter (fun c => c.decorator != k! "cached_property")).all
+      (fun c => cacheReads.any (fun r => r.file == c.file && r.func == c.func)) = true ∧
+    cacheReads.length = (cacheSites.filter (fun c => c.decorator != k! "cached_property")).length := by
+  decide +kernel
 
 /-! ### The working directory -/
 
